@@ -299,6 +299,35 @@ def widen16 (p : Nat) : Nat :=
   else
     s * 2^63 + (e + 1008) * 2^52 + f * 2^42
 
+/-! ### executable equality on values (V is a nested inductive: no derived DecidableEq) -/
+
+mutual
+def veq : V → V → Bool
+  | .null, .null => true
+  | .bool a, .bool b => a == b
+  | .int a, .int b => a == b
+  | .float a, .float b => a == b
+  | .str a, .str b => a == b
+  | .bytes a, .bytes b => a == b
+  | .arr xs, .arr ys => veqL xs ys
+  | .map xs, .map ys => veqKV xs ys
+  | _, _ => false
+def veqL : List V → List V → Bool
+  | [], [] => true
+  | x :: xs, y :: ys => veq x y && veqL xs ys
+  | _, _ => false
+def veqKV : List (V × V) → List (V × V) → Bool
+  | [], [] => true
+  | (k, v) :: xs, (k', v') :: ys => veq k k' && veq v v' && veqKV xs ys
+  | _, _ => false
+end
+
+def resEq (a b : Res (V × Bytes)) : Bool :=
+  match a, b with
+  | .ok (v, r), .ok (v', r') => veq v v' && r == r'
+  | .err e, .err e' => e == e'
+  | _, _ => false
+
 /-! ### duplicate-free keys (executable) -/
 
 def nodupB : List Bytes → Bool
